@@ -8,7 +8,7 @@ import random
 
 from harness import sim
 
-NAMES = ["a", "B", "c c", "Éd", "w3"]
+NAMES = ["a", "B", "c c", "Éd", "w3", "Straße"]
 GRACE = [0, 100, 200, 300, 500]            # ms; the float loop `waited += 0.1` makes ceil(ms/100) polls for these
 WARM = [0, 0, 100, 300]
 SIGS = [15, 2, 3, 10]
@@ -210,7 +210,7 @@ def gen_request(rng, v, rid, profile):
         return base("kill")
     if pick(p.get("signal", 0.08)):
         props["name"] = some_name(rng, v)
-        props["signum"] = rng.choice([15, 2, 1, 9, 10, 0, 99, "bogus", 2.5])
+        props["signum"] = rng.choice([15, 2, 1, 9, 10, 0, 99, "bogus", 2.5, 19, 19, 18, 20])
         if rng.random() < 0.15:
             del props["signum"]
         if rng.random() < 0.6:
@@ -476,7 +476,26 @@ def recipe_children_vanish(rng):
     return sc, pre
 
 
-RECIPES = {"children_vanish": recipe_children_vanish, "pattern_subset": recipe_pattern_subset, "signal_veto": recipe_signal_veto, "singleton_set": recipe_singleton_set, "on_demand_stop": recipe_on_demand_stop, "untracked_zombies": recipe_untracked_zombies,
+def recipe_stopped_worker(rng):
+    """a worker is suspended with SIGSTOP / SIGTSTP (and perhaps continued): it is neither dead nor gone, the periodic
+    checks must keep it listed and must not replace it"""
+    sc = {"arb": {"warmup_ms": 0}, "behav": [{"term": ["obey", 0], "kill_lat": 0, "spawn_ms": 1}],
+          "watchers": [_w("a", np=rng.choice([1, 2])), _w("B", np=1)]}
+    pre = [["start"]] + [["wake"]] * 5
+    sg = rng.choice([19, 19, 20])
+    if rng.random() < 0.5:
+        pre.append(_req("signal", "q1", name="a", signum=sg))
+    else:
+        pre.append(lambda v: ["req", {"command": "signal", "id": "q1", "properties":
+                                      {"name": "a", "pid": (v.pids.get("a") or [100])[0], "signum": sg}}, 0])
+    pre += [["check"], ["wake"], ["check"], ["wake"]]
+    if rng.random() < 0.5:
+        pre += [_req("signal", "q2", name="a", signum=18), ["check"]]
+    pre += [_req(rng.choice(["list", "numprocesses", "status"]), "q3", name="a"), ["check"], ["wake"]]
+    return sc, pre
+
+
+RECIPES = {"stopped_worker": recipe_stopped_worker, "children_vanish": recipe_children_vanish, "pattern_subset": recipe_pattern_subset, "signal_veto": recipe_signal_veto, "singleton_set": recipe_singleton_set, "on_demand_stop": recipe_on_demand_stop, "untracked_zombies": recipe_untracked_zombies,
            "topup_start": recipe_topup_start}
 
 
